@@ -142,6 +142,10 @@ def _run_path(E, c, fnode, cls, params, canary):
         for x, d in zip(a.kwonlyargs, a.kw_defaults):
             if d is not None:
                 defaults[x.arg] = d
+        step = None
+        if "step" in c.tags:
+            step = B.extract_step(fnode)
+            names = names + [step[0]]
         for nm in names:
             if nm in params:
                 env[nm] = make_param(E, nm, params[nm], c)
@@ -168,9 +172,16 @@ def _run_path(E, c, fnode, cls, params, canary):
         exc = None
         result = None
         try:
-            if B.is_generator(fnode) and not c.tags.__contains__("step"):
+            if B.is_generator(fnode) and step is None:
                 raise Unsupported("generator function %s needs a step extraction" % c.qual)
-            E.exec_block(fnode.body)
+            if step is not None:
+                try:
+                    E.exec_block(step[1])
+                    result = E.eval(step[2]) if step[2] is not None else None     # the value yielded next
+                except _Brk:
+                    result = None          # `break` out of the runner loop: the generator ends, nothing is yielded
+            else:
+                E.exec_block(fnode.body)
             outcome = "return"
         except _Ret as r:
             result = r.val
